@@ -973,6 +973,10 @@ func NewEnum(config EnumConfig) *Enum {
 	if gt.values, gt.err = gt.defineEnumValues(config.Values); gt.err != nil {
 		return gt
 	}
+	// build the lookup tables now: filling them lazily on first use is a data
+	// race when several requests meet the enum for the first time at once
+	gt.getValueLookup()
+	gt.getNameLookup()
 
 	return gt
 }
